@@ -204,18 +204,26 @@ pub fn run(ctx: &Ctx) -> (Outcome, String, Option<bool>) {
         if opb == 0xf2 || opb == 0xf0 {
             for n in 0..=255u8 {
                 for lead in [0x00u8, 0x01, 0xff] {
-                    for extra in [0usize, 1] {
-                        let total = (n as usize + extra).min(300);
-                        for short in [0usize, 1] {
-                            let mut b = vec![opb, n];
-                            if total >= short {
-                                let l = total - short;
-                                if l > 0 {
-                                    b.push(lead);
-                                    b.extend(std::iter::repeat(0x55).take(l - 1));
+                    // the rest of the payload: mixed, all zero (with a zero lead: the value 0 at every length), all ones
+                    for fill in [0x55u8, 0x00, 0xff] {
+                        for extra in [0usize, 1] {
+                            let total = (n as usize + extra).min(300);
+                            for short in [0usize, 1] {
+                                let mut b = vec![opb, n];
+                                if total >= short {
+                                    let l = total - short;
+                                    if l > 0 {
+                                        b.push(lead);
+                                        b.extend(std::iter::repeat(fill).take(l - 1));
+                                    }
                                 }
+                                check_bytes(&b, st, true)?;
+                                // ... and the same literal inside a program
+                                let mut c = vec![0x09u8];
+                                c.extend_from_slice(&b);
+                                c.extend_from_slice(&[0xf2, 0x01, 0x01, 0x10]);
+                                check_bytes(&c, st, false)?;
                             }
-                            check_bytes(&b, st, true)?;
                         }
                     }
                 }
